@@ -25,6 +25,7 @@ inductive CE
   | not (a : CE)
   | isin (arg : String)
   | strMatch (arg : String)
+  | strMatchCaret (arg : String)                -- polars: `str.contains("^" + pattern)`
   | strContains (arg : String)
   | strStartswith (arg : String)
   | strEndswith (arg : String)
@@ -64,6 +65,12 @@ def operandVal (args : Args) (v : Val) : Operand → Option Val
   | .data => some v
   | .arg n => match args n with | .val x => some x | _ => Option.none
 
+/-- searching for `"^" ++ p`: the caret binds tighter than a top-level alternation, so only the first
+alternative is anchored at the start and the others are searched for anywhere -/
+def caretSearch : Pat → String → Bool
+  | .alt a b, s => caretSearch a s || b.search s
+  | p, s => p.prefixMatch s
+
 def CE.eval (args : Args) (v : Val) : CE → Option Bool
   | .cmp op l r =>
     match operandVal args v l, operandVal args v r with
@@ -81,6 +88,9 @@ def CE.eval (args : Args) (v : Val) : CE → Option Bool
     | _ => Option.none
   | .strContains n => match args n with
     | .pat p => strOp (fun s => p.search s) v
+    | _ => Option.none
+  | .strMatchCaret n => match args n with
+    | .pat p => strOp (fun s => caretSearch p s) v
     | _ => Option.none
   | .strStartswith n => match args n with
     | .str a => strOp (fun s => a.toList.isPrefixOf s.toList) v
